@@ -155,5 +155,73 @@ theorem mirrorW_zip (env : JEnv) : ∀ (vs : List Payload) (es ves : List Ty) (j
     · simp at hj
 end
 
+/-! ### against a placeholder-free constraint `mirrorsW` is the plain mirror -/
+
+theorem unwrap_noDyn (t vt : Ty) (j : Json) (hd : hasDyn t = false) : unwrapDyn t vt j = some (t, j) :=
+  unwrap_plain t vt j (by simp [isDyn_of_hasDyn hd])
+
+mutual
+theorem mirrors_of_mirrorsW : ∀ (p : Payload) (t vt : Ty) (j : Json), hasDyn t = false →
+    mirrorsW t vt p j = true → mirrors p j = true
+  | .null, t, vt, j, hd, h => by
+    simp only [mirrorsW, unwrap_noDyn t vt j hd] at h
+    cases j <;> simp_all [mirrors]
+  | .b a, t, vt, j, hd, h => by
+    simp only [mirrorsW, unwrap_noDyn t vt j hd] at h
+    cases j <;> simp_all [mirrors]
+  | .s a, t, vt, j, hd, h => by
+    simp only [mirrorsW, unwrap_noDyn t vt j hd] at h
+    cases j <;> simp_all [mirrors]
+  | .n a, t, vt, j, hd, h => by
+    simp only [mirrorsW, unwrap_noDyn t vt j hd] at h
+    cases j <;> simp_all [mirrors]
+  | .seq vs, t, vt, j, hd, h => by
+    simp only [mirrorsW, unwrap_noDyn t vt j hd] at h
+    cases t <;> cases j <;> simp at h
+    · rename_i e js
+      cases vt <;> simp at h
+      rename_i ve
+      simpa [mirrors] using mirrorsL_of_all vs e ve js (by simpa [hasDyn] using hd) h
+    · rename_i es js
+      cases vt <;> simp at h
+      rename_i ves
+      simpa [mirrors] using mirrorsL_of_zip vs es ves js (by simpa [hasDyn] using hd) h
+  | .smap ks vs, t, vt, j, hd, h => by
+    simp only [mirrorsW, unwrap_noDyn t vt j hd] at h
+    cases t <;> cases j <;> simp at h
+    · rename_i e ks' js
+      cases vt <;> simp at h
+      rename_i ve
+      simp [mirrors, h.1, mirrorsL_of_all vs e ve js (by simpa [hasDyn] using hd) h.2]
+    · rename_i ns ts os ks' js
+      cases vt <;> simp at h
+      rename_i vns vts vos
+      simp [mirrors, h.1, mirrorsL_of_zip vs ts vts js (by simpa [hasDyn] using hd) h.2]
+  | .unk _, _, _, _, _, h => by simp [mirrorsW] at h
+  | .marked _ _, _, _, _, _, h => by simp [mirrorsW] at h
+  | .caps, _, _, _, _, h => by simp [mirrorsW] at h
+  | .bad _, _, _, _, _, h => by simp [mirrorsW] at h
+  | .sset _ _, _, _, _, _, h => by simp [mirrorsW] at h
+theorem mirrorsL_of_all : ∀ (vs : List Payload) (e ve : Ty) (js : List Json), hasDyn e = false →
+    mirrorsWAll e ve vs js = true → mirrorsL vs js = true
+  | [], _, _, [], _, _ => rfl
+  | [], _, _, _ :: _, _, h => by simp [mirrorsWAll] at h
+  | _ :: _, _, _, [], _, h => by simp [mirrorsWAll] at h
+  | v :: vs, e, ve, j :: js, hd, h => by
+    simp only [mirrorsWAll, Bool.and_eq_true] at h
+    simp [mirrorsL, mirrors_of_mirrorsW v e ve j hd h.1, mirrorsL_of_all vs e ve js hd h.2]
+theorem mirrorsL_of_zip : ∀ (vs : List Payload) (es ves : List Ty) (js : List Json), hasDynL es = false →
+    mirrorsWZip es ves vs js = true → mirrorsL vs js = true
+  | [], _, _, [], _, _ => rfl
+  | [], _, _, _ :: _, _, h => by simp [mirrorsWZip] at h
+  | _ :: _, _, _, [], _, h => by simp [mirrorsWZip] at h
+  | _ :: _, [], _, _ :: _, _, h => by simp [mirrorsWZip] at h
+  | _ :: _, _ :: _, [], _ :: _, _, h => by simp [mirrorsWZip] at h
+  | v :: vs, e :: es, ve :: ves, j :: js, hd, h => by
+    simp only [hasDynL, Bool.or_eq_false_iff] at hd
+    simp only [mirrorsWZip, Bool.and_eq_true] at h
+    simp [mirrorsL, mirrors_of_mirrorsW v e ve j hd.1 h.1, mirrorsL_of_zip vs es ves js hd.2 h.2]
+end
+
 end JsonVal
 end CtyModel
